@@ -85,6 +85,51 @@ def check_sub(acc, na, nb, be, htag, c, ops, compare):
     acc.outcome('c09', (fn, na, nb, be))
 
 
+def check_sub_live_inputs(acc, na, nb, be, compare):
+    """Operand a is the host's own (live) input list, operand b are gates of the host: the host's interface
+    must be untouched and the result exact."""
+    from cirbo.core.circuit import Circuit, gate as G
+    from cirbo.synthesis.generation.arithmetics import add_sub_two_numbers, add_subtract_with_compare
+
+    fn = 'add_subtract_with_compare' if compare else 'add_sub_two_numbers'
+    case = {'fn': fn, 'na': na, 'nb': nb, 'big_endian': be, 'host': 'live-inputs'}
+    feats = {'host': 'live-inputs', 'big_endian': be}
+    c = Circuit()
+    c.add_inputs([f'in{i}' for i in range(na)])
+    b = []
+    for i in range(nb):
+        lab = f'nb{i}'
+        c.emplace_gate(lab, G.NOT if i % 2 else G.IFF, (f'in{i % na}',))
+        b.append(lab)
+    c.set_outputs([b[0]])
+    a_expected = list(c.inputs)
+    b_expected = list(b)
+    r = _run(acc, fn, case, feats, c, lambda: (add_subtract_with_compare if compare else add_sub_two_numbers)(c, c.inputs, b, big_endian=be))
+    if r is None:
+        return
+    before, res = r
+    t = _tabs(acc, fn, case, feats, c, before)
+    if t is None:
+        return
+    net, tabs = t
+    rows = 1 << len(net.inputs)
+    va = arith.decode_rows(tabs, a_expected, rows, be)
+    vb = arith.decode_rows(tabs, b_expected, rows, be)
+    bits, flag = res if compare else (res, None)
+    L = len(bits)
+    got = arith.decode_rows(tabs, bits, rows, be)
+    for j in range(rows):
+        if got[j] != (va[j] - vb[j]) % (1 << L):
+            acc.violation(f'{fn}/wrong-difference', case, f'a={va[j]} b={vb[j]} got {got[j]} on {L} bits', feats)
+            return
+    if compare:
+        fl = tabs[flag]
+        if any(bool((fl >> j) & 1) != (va[j] < vb[j]) for j in range(rows)):
+            acc.violation(f'{fn}/wrong-borrow-flag', case, '', feats)
+    if b != b_expected:
+        acc.violation(f'{fn}/modifies-the-operand-list-it-was-given', case, f'{b} was {b_expected}', feats)
+
+
 def check_generate_sub(acc, na, nb, be):
     from cirbo.synthesis.generation.arithmetics import generate_sub_two_numbers
 
@@ -271,6 +316,23 @@ def check_gadgets(acc):
         generate_pairwise_xor,
     )
 
+    # every generate_* call returns a fresh circuit
+    import cirbo.synthesis.generation.arithmetics as A
+    from cirbo.synthesis.generation.generation import generate_plus_one
+
+    for nm, mk in (
+        ('generate_if_then_else', generate_if_then_else),
+        ('generate_pairwise_xor', lambda: generate_pairwise_xor(2)),
+        ('generate_pairwise_if_then_else', lambda: generate_pairwise_if_then_else(2)),
+        ('generate_plus_one', lambda: generate_plus_one(3, 4)),
+        ('generate_sub_two_numbers', lambda: A.generate_sub_two_numbers(3, 2)),
+        ('generate_div_mod', lambda: A.generate_div_mod(2)),
+        ('generate_sqrt', lambda: A.generate_sqrt(4)),
+        ('generate_equal', lambda: A.generate_equal(3, 5)),
+    ):
+        acc.states += 1
+        acc.traces += 1
+        arith.fresh_generator_check(acc, nm, mk)
     # generate_* forms
     c = generate_if_then_else()
     net = refmodel.abstract(c)
@@ -397,9 +459,9 @@ def plan(tier):
 def describe(tier):
     return {
         'rule': 'sub: generate/add_sub_two_numbers and add_subtract_with_compare for all width pairs x endianness x hosts (H0 inputs, H1 '
-        'non-input operands); div_mod (incl. b=0), sqrt (odd and even n), equality gadget (every constant 0..2^(n+1)), plus-one '
+        'non-input operands, and the live input list of the host as operand a); div_mod (incl. b=0), sqrt (odd and even n), equality gadget (every constant 0..2^(n+1)), plus-one '
         '(inp x out x endianness x add_outputs x result_labels given/omitted x H0/H1/H2), if-then-else and pairwise gadgets on a '
-        'host with existing gates/outputs/blocks over every operand tuple incl. internal gates and repeats; all operand values. '
+        'host with existing gates/outputs/blocks over every operand tuple incl. internal gates and repeats; all operand values; every generate_* is called, its result edited, and called again (fresh circuit each time). '
         'distinct = distinct configuration classes.',
         'bounds': {'quick': 'sub widths<=6, div_mod n<=7, sqrt n<=14, equal n<=6, plus-one inp<=6 out<=8',
                    'thorough': 'sub widths<=8, div_mod n<=9, sqrt n<=20, equal n<=8, plus-one inp<=8 out<=10'}[tier],
@@ -430,6 +492,7 @@ def run_task(task, acc):
             for compare in (False, True):
                 for htag, c, ops in _hosts(na + nb):
                     check_sub(acc, na, nb, be, htag, c, ops, compare)
+                check_sub_live_inputs(acc, na, nb, be, compare)
         acc.sample({'fn': 'add_subtract_with_compare', 'na': na, 'nb': nb, 'big_endian': True, 'host': 'H1'})
     elif k == 'div':
         n = task['n']
